@@ -51,10 +51,12 @@ def run(eng: Engine, ck: Check):
     # ---- R-C12-ITER: the completion loop visits every registered waiter
     omr = eng.func(NET, 'Network.on_message_received')
     ck.visited(omr)
-    loops = [n for n in walk_local(omr.node) if isinstance(n, ast.For) and mentions_attr(n.iter, '_expected_response_futures')]
+    loops = [n for n in walk_local(omr.node) if isinstance(n, ast.For) and mentions_attr(expand_aliases(omr, n.iter), '_expected_response_futures')]
     ck.floor('R-C12-ITER', len(loops), 1)
     for lp in loops:
-        direct = isinstance(lp.iter, ast.Attribute)
+        it_ = expand_aliases(omr, lp.iter)
+        # anything but a snapshot (list(..), tuple(..), sorted(..), a list comprehension, a slice) walks the live list
+        direct = not ((isinstance(it_, ast.Call) and call_name(it_) in ('list', 'tuple', 'sorted', 'copy')) or isinstance(it_, (ast.ListComp, ast.Subscript)))
         muts = [c for st in lp.body for c in calls_in(st) if call_name(c) in ('remove', 'pop', 'append', 'insert', 'clear', 'extend')
                 and mentions_attr(c.func.value, '_expected_response_futures')]
         dels = [n for st in lp.body for n in ast.walk(st) if isinstance(n, ast.Delete) and mentions_attr(n, '_expected_response_futures')]
@@ -100,7 +102,7 @@ def run(eng: Engine, ck: Check):
     emits = [x for x in calls_on(omr.node, 'emit')]
     pre = []
     for st in omr.node.body:
-        if any(isinstance(n, ast.For) and mentions_attr(n.iter, '_expected_response_futures') for n in ast.walk(st)):
+        if any(isinstance(n, ast.For) and mentions_attr(expand_aliases(omr, n.iter), '_expected_response_futures') for n in ast.walk(st)):
             break
         pre.append(st)
     typed = sorted({t for st in pre for t in escm._stmt(omr, st, frozenset()) if t not in ('*', '<cancel>')})
@@ -112,7 +114,14 @@ def run(eng: Engine, ck: Check):
     ck.visited(m)
     falses = [n for n in walk_local(m.node) if isinstance(n, ast.Return) and const(n.value) is False]
     conn_p, resp_p = [p_ for p_ in m.params if p_ != 'self'][:2]
-    flat = [(e, pol, r) for r in falses for e, pol, _ in eng.guards_at(m, r)]
+    flat = [(e, pol, r) for r in falses for e, pol, _ in expanded_guards(eng, m, r)]
+    # `if A or B: return False` rejects when A holds and rejects when B holds: each disjunct of a guard taken true is a sufficient reason
+    for e, pol, r in list(flat):
+        if isinstance(e, ast.BoolOp) and isinstance(e.op, ast.Or) and pol:
+            for v_ in e.values:
+                parts = split_conj(v_, True)
+                if len(parts) == 1:
+                    flat.append((parts[0][0], parts[0][1], r))
 
     def rejects_unequal(lhs: str, rhs: str, within=None) -> bool:
         """some `return False` is reached exactly when lhs != rhs (guard atom lhs == rhs false / lhs != rhs true)"""
@@ -148,23 +157,33 @@ def run(eng: Engine, ck: Check):
               '(no caller combines a callable with further fields today)', construct='callable matcher early return', advisory=True)
 
     # ---- R-C12-REMOVE: waiter residue
-    rrf = eng.func(NET, 'Network._remove_response_future')
-    rem = [c for c in calls_in(rrf.node) if call_name(c) == 'remove' and mentions_attr(c.func.value, '_expected_response_futures')]
-    ok = len(rem) == 1 and (any(pol and (cmp_atom(e) or ('',))[0] == 'in' for e, pol, _ in eng.guards_at(rrf, rem[0])) or
-                            protected_by_try_catching(eng, rrf, rem[0], 'ValueError') is not None)
-    ck.ob('R-C12-REMOVE', rrf, rrf.node, '_remove_response_future removes the waiter and tolerates one that is already gone', ok, '', construct='remover tolerant')
     acq = eng.mutations_of_attr('_expected_response_futures', ['append'])
     # registration sites: direct appends plus calls of the functions that append (a refactoring may route every creator through one of them)
     reg_calls = [(c_, x_) for f_, _a in acq for c_, x_, how_ in eng.res.callers_of(f_) if how_ == 'call' and f_.name.startswith('register')]
     ck.floor('R-C12-REMOVE', len(acq) + len(reg_calls), 3)
+    removers: set[str] = set()
     for f, a in acq:
         ck.visited(f)
         fut = unparse(a.args[0])
+        # the remover is whatever method of the network is attached as done-callback here; it is checked below
         cbs = [c for c in calls_on(f.node, 'add_done_callback') if unparse(c.func.value) == fut and c.args and
-               (chain_str(c.args[0]) or '').endswith('_remove_response_future')]
+               (chain_str(c.args[0]) or '').startswith('self.') and eng.repo.find_func(NET, 'Network.' + chain_str(c.args[0])[5:]) is not None]
         ok = len(cbs) == 1 and not eng.guards_at(f, cbs[0]) and not f.is_async
+        if ok:
+            removers.add(chain_str(cbs[0].args[0])[5:])
         ck.ob('R-C12-REMOVE', f, a, f'{f.name}: a registered waiter removes itself when done or cancelled (done-callback attached in the same step)',
-              ok, 'add_done_callback(self._remove_response_future) missing/conditional', construct=f'{f.name} attaches remover')
+              ok, 'add_done_callback(<remover of the network>) missing/conditional', construct=f'{f.name} attaches remover')
+    ck.floor('R-C12-REMOVE.removers', len(removers), 1)
+    for rn_ in sorted(removers):
+        rrf = eng.func(NET, f'Network.{rn_}')
+        ck.visited(rrf)
+        fp_ = [p_ for p_ in rrf.params if p_ != 'self']
+        rem = [c for c in calls_in(rrf.node) if call_name(c) == 'remove' and mentions_attr(c.func.value, '_expected_response_futures') and
+               len(c.args) == 1 and fp_ and unparse(c.args[0]) == fp_[0]]
+        ok = len(rem) == 1 and (any(pol and (cmp_atom(e) or ('',))[0] == 'in' for e, pol, _ in eng.guards_at(rrf, rem[0])) or
+                                protected_by_try_catching(eng, rrf, rem[0], 'ValueError') is not None)
+        ck.ob('R-C12-REMOVE', rrf, rrf.node, 'the done-callback removes the finished waiter from the table and tolerates one that is already gone', ok, '',
+              construct='remover tolerant')
     for f, st, v in eng.stores_to_attr('_expected_response_futures'):
         ck.ob('R-C12-REMOVE', f, st, 'the waiter table is re-bound only in Network.__init__', f.qualname == 'Network.__init__', f.qualname,
               construct=alpha_key(st))
